@@ -192,11 +192,11 @@ CHECKS["C16"] = dict(
     text="Bounded model checking from MIR of TestRunner::{build, build_internal}, TestContext::{start_container, run_shell_command, "
          "download_sbom_files, rebuild, determine_container_platform}, ContainerContext::{logs_now, logs_wait, address_for_port, shell_exec}, "
          "Drop for ContainerContext and TemporaryDockerResources (incl. unwinding and drop glue), util::run_command, app::copy_app and all "
-         "From<..Command> for Command impls. The test closures are scenario programs chosen step by step: <= 3 (quick) / <= 4 (thorough) "
+         "From<..Command> for Command impls. The test closures are scenario programs chosen step by step: <= 3 "
          "steps from {start_container(nested program), run_shell_command, download_sbom_files(closure returns|panics), rebuild(nested "
          "program), panic, return} and container steps {logs_now, logs_wait, address_for_port(exposed|unexposed), shell_exec, panic, return}; "
          "the exit code of every external command is a solver variable with at most 1 (quick) / 2 (thorough) non-zero; a panic is injectable "
-         "at every step; three (quick) / eight (thorough) build configurations. When a scenario ends (return, panic or abort) the recorded "
+         "at every step; three build configurations (thorough: all eight for the first build). When a scenario ends (return, panic or abort) the recorded "
          "command list and the file-system model must show: every detached container force-removed after its start; image and both cache "
          "volumes force-removed exactly once after their last use; nothing else removed; no temp dir left; fixture untouched.",
     design_ref="DESIGN.md §5 C16",
@@ -207,8 +207,8 @@ CHECKS["C16"] = dict(
 CHECKS["C14"] = dict(
     text="Bounded model checking from MIR of normalize_package_descriptor, replace_libcnb_uris, replace_libcnb_uri, "
          "absolutize_dependency_paths, buildpack_id_from_libcnb_dependency (with all closures), util::{absolutize_path, normalize_path}, "
-         "PackageDescriptorDependency::try_from and BuildpackId::from_str. Descriptors: 0..2 (quick) / 0..3 (thorough) dependencies of the six "
-         "kinds in every order and multiplicity at two locations with a 0..2-entry id->path map, plus a single relative dependency in every "
+         "PackageDescriptorDependency::try_from and BuildpackId::from_str. Descriptors: 0..2 dependencies of the six "
+         "kinds in every order and multiplicity at two (quick) / four (thorough) locations with a 0..2-entry id->path map, plus a single relative dependency in every "
          "shape of 1..3 / 1..4 components from {., .., n, m.d} with optional doubled/trailing separator at four locations (incl. `/`, so "
          "climbing above the root). Buildpack ids, map keys and values and the tails of verbatim URIs are SMT strings; the solver decides per "
          "path: Err <=> some libcnb id is invalid or not a key; otherwise same number and order, libcnb -> the value of exactly the equal key, "
@@ -259,7 +259,7 @@ CHECKS["C07"] = dict(
          "Launch, Process, ProcessType, WorkingDirectory, Label, Slice, Store, ExecDProgramOutput(+Key), write_toml_file, "
          "write_exec_d_program_output (fd 3) and read_toml_file with the derived Deserialize of Launch/Process/Label/Slice/Store. Every "
          "BuildPlanBuilder call sequence of length 0..4 (quick) / 0..5 (thorough) over {provides, requires, requires+metadata, or} - so empty "
-         "groups in every position -, every LaunchBuilder sequence of length 0..3 / 0..4 over {process, label, slice} (quick: 4 representative "
+         "groups in every position -, every LaunchBuilder sequence of length 0..3 over {process, label, slice} (quick: 4 representative "
          "process shapes; thorough: command 1..2 x arg x default x working dir), a store, 0..2 exec.d pairs; all string payloads are SMT "
          "strings over every Unicode scalar value, flags solver variables. An independent reader applying the CNB field names and defaults "
          "to the produced document must recover exactly the constructed value (solver-decided), and reading back yields an equal value.",
